@@ -408,5 +408,7 @@ MUTANTS = [
     M("threshold-le", CM, "BaseImage._get_render_data", "a = [0 if val < alpha else 255 for val in a]", "a = [0 if val <= alpha else 255 for val in a]", {"R4"}),
     M("composite-shortcut", CM, "BaseImage._get_render_data", "                if round_alpha:\n                    bg = Image.new(", "                if round_alpha and not (pixel_data and min(a) == 255):\n                    bg = Image.new(", {"R4"}),
     M("no-round-alpha", BL, "BlockImage._render_image", "round_alpha=True, ", "", {"R4"}),
+    M("numeric-fallback-fill", CM, "BaseImage._get_render_data", '                    alpha = get_fg_bg_colors(hex=True)[1] or "#000000"\n', '                    alpha = get_fg_bg_colors(hex=True)[1] or 0\n', {"R4"}),
+    M("numeric-fill-round-alpha", CM, "BaseImage._get_render_data", '"RGBA", img.size, get_fg_bg_colors(hex=True)[1] or "#000000"\n', '"RGBA", img.size, get_fg_bg_colors(hex=True)[1] or (0, 0, 0, 0)\n', {"R4"}),
     M("twin-reorder-disjuncts", BL, "BlockImage._render_image", "                    px1 != cluster1\n                    or px2 != cluster2\n", "                    px2 != cluster2\n                    or px1 != cluster1\n", twin=True),
 ]
